@@ -450,24 +450,24 @@ func c08Judge(tr string, rest bool, d c08Depth, want, got c08Out) (sig string) {
 
 func c08Queries(thorough bool) []*ketoapi.RelationTuple {
 	nss := []string{"Doc", "Group", "Unknown", ""}
-	objs := []string{"d1", "d2", "g1", "nosuch"}
-	rels := []string{"viewers", "owners", "view", "edit", "members", "zzz", ""}
+	objs := []string{"d1", "d2", "nosuch"}
+	rels := []string{"viewers", "owners", "view", "members", "zzz"}
 	type sub struct {
 		id  *string
 		set *ketoapi.SubjectSet
 	}
 	subs := []sub{
-		{id: axS("u1")}, {id: axS("u2")}, {id: axS("u3")}, {id: axS("u4")}, {id: axS("u6")}, {id: axS("nobody")},
+		{id: axS("u1")}, {id: axS("u2")}, {id: axS("u3")}, {id: axS("u4")}, {id: axS("nobody")},
 		{set: &ketoapi.SubjectSet{Namespace: "Group", Object: "g1", Relation: "members"}},
 		{set: &ketoapi.SubjectSet{Namespace: "Group", Object: "g2", Relation: "members"}},
-		{set: &ketoapi.SubjectSet{Namespace: "Doc", Object: "d1", Relation: ""}},
 		{set: &ketoapi.SubjectSet{Namespace: "Unknown", Object: "g1", Relation: "members"}},
 		{}, // no subject
 	}
 	if thorough {
-		objs = append(objs, "g2", "")
-		rels = append(rels, "parents")
-		subs = append(subs, sub{id: axS("u5")}, sub{id: axS("g1")}, sub{id: axS("")},
+		objs = append(objs, "g1", "g2", "")
+		rels = append(rels, "edit", "", "parents")
+		subs = append(subs, sub{id: axS("u5")}, sub{id: axS("u6")}, sub{id: axS("g1")}, sub{id: axS("")},
+			sub{set: &ketoapi.SubjectSet{Namespace: "Doc", Object: "d1", Relation: ""}},
 			sub{set: &ketoapi.SubjectSet{Namespace: "Group", Object: "g1", Relation: ""}},
 			sub{set: &ketoapi.SubjectSet{Namespace: "Group", Object: "g1", Relation: "zzz"}},
 			sub{set: &ketoapi.SubjectSet{Namespace: "", Object: "", Relation: ""}})
